@@ -88,9 +88,18 @@ def check_as_samples(ctx, r, B):
     kind = r.choice(['dict', 'dicts', 'dicts', 'dicts', 'lab', 'lab1', 'arr', 'arr1', 'ss', 'dicts-mismatch', 'lab-mismatch'])
     ctx.tick('as_samples:' + kind)
     hdr = 'import numpy as np, dimod\nfrom fractions import Fraction\n'
+    # forms given without a dtype: a third of the time the largest magnitude sits exactly at the edge of an integer width
+    bnd = kind in ('dict', 'dicts', 'lab1', 'arr1') and r.random() < .35
+
+    def inject(rows_):
+        if bnd and rows_ and rows_[0]:
+            w_, bv_ = boundary_value(r)
+            rows_[0][r.choice(list(rows_[0]))] = bv_
+            ctx.tick(f'as_samples: boundary 2^{w_} ({kind})')
     if kind in ('dict', 'dicts', 'dicts-mismatch'):
         if kind == 'dict':
             rows = rows[:1] or [{l: 1 for l in labels}]
+        inject(rows)
         orders = [perm_of(r, labels) for _ in rows]
         if kind != 'dict' and len(rows) >= 2 and n >= 3 and r.random() < .6:
             base = list(orders[0]); i, j, kk = r.sample(range(n), 3)
@@ -115,6 +124,7 @@ def check_as_samples(ctx, r, B):
         perm = perm_of(r, labels)
         if kind == 'lab1':
             rows = rows[:1]
+            inject(rows)
         if kind == 'ss' and (not rows or not n):
             return
         mat = [[row[l] for l in perm] for row in rows]
@@ -139,6 +149,7 @@ def check_as_samples(ctx, r, B):
         rows = [{l: r.choice([-2, -1, 0, 1, 3]) for l in labels} for _ in range(k)]
         if kind == 'arr1':
             rows = rows[:1]
+            inject(rows)
         mat = [[row[l] for l in labels] for row in rows]
         if kind == 'arr1':
             expr = repr(mat[0] if mat else [])
@@ -185,7 +196,8 @@ def check_as_samples(ctx, r, B):
                 if bad:
                     break
         if bad:
-            ctx.fail('property', 'as_samples', ic, f'{bad}; input {expr}', repro=repro, detail=dict(input=expr))
+            ctx.fail('property', 'as_samples', ic + ('; largest magnitude at the edge of an integer width' if bnd else ''),
+                     f'{bad}; input {expr}', repro=repro, detail=dict(input=expr))
     else:
         ctx.fail('property', 'as_samples', ic, f'valid input rejected ({out}): {expr}', repro=repro)
     B.add(line, out, 'as_samples', ic, f'as_samples({expr})', detail=dict(input=expr))
@@ -256,7 +268,7 @@ def check_energies(ctx, r, B, R, target, site, labels_used, all_labels, dom, mir
             ctx.case((site, target, enc_expr, R.lines[-1]), nontrivial=True)
             if name.startswith('dicts') and as_samples_wrong(enc_expr.replace('iter(', '(') if name == 'dicts-iter' else enc_expr, rows, R.ns):
                 ctx.fail('property', 'as_samples', 'list of dicts in differing key orders',
-                         f'{site}: {type(e).__name__} because as_samples misplaces columns; input {enc_expr}', repro=repro)
+                         f'{site}: {type(e).__name__} because as_samples delivers other values than the input assigns; input {enc_expr}', repro=repro)
             else:
                 ctx.fail('property', site, ic, f'{type(e).__name__}: {e} for a sample that assigns every variable', repro=repro,
                          detail=dict(encoding=enc_expr))
@@ -267,7 +279,7 @@ def check_energies(ctx, r, B, R, target, site, labels_used, all_labels, dom, mir
         if got != expect:
             if name.startswith('dicts') and as_samples_wrong(enc_expr.replace('iter(', '(') if name == 'dicts-iter' else enc_expr, rows, R.ns):
                 ctx.fail('property', 'as_samples', 'list of dicts in differing key orders',
-                         f'{site}: energies {list(map(str, got))} != {list(map(str, expect))} because as_samples misplaces columns; input {enc_expr}',
+                         f'{site}: energies {list(map(str, got))} != {list(map(str, expect))} because as_samples delivers other values than the input assigns; input {enc_expr}',
                          repro=repro, detail=dict(encoding=enc_expr))
             else:
                 ctx.fail('property', site, ic, f'energies {list(map(str, got))} but the polynomial of the reported coefficients gives '
@@ -536,6 +548,192 @@ def case_wide(ctx, r, B):
                    nrows=r.choice([1, 2, 3]), exact=exact_in_double, degenerate='wide integer values')
 
 
+
+# ------------------------------------------------------------------------------------------ range-labelled CQM (round 7)
+
+def case_cqm_range(ctx, r, B):
+    """A CQM whose variables are labelled exactly 0..n-1 in order (registered up front, learned from the objective, or relabelled
+    into that state), whose objective / constraints were written in OTHER variable orders (so the expression's private order is a
+    non-identity permutation of the parent's order, spanning every variable or a subset), evaluated on samples labelled exactly
+    0..k-1 in order (k = n or n+1): unlabelled arrays and lists, (array, range), dicts / lists of dicts / SampleSets with sorted
+    integer keys — the inputs for which a label lookup could be skipped — next to the same rows in a shuffled column order."""
+    R = Recipe()
+    n = r.choice([1, 2, 2, 3, 3, 4, 5])
+    how = r.choice(['add_variable', 'add_variable', 'objective first', 'relabel'])
+    tmp = {i: (LABELS[4:] + ['z9'])[i] if how == 'relabel' else i for i in range(n)}
+    vts = {i: r.choice(['BINARY', 'SPIN', 'INTEGER', 'INTEGER']) for i in range(n)}
+    R.do('c = CQM()')
+
+    def addvar(obj, i):
+        return (f'{obj}.add_variable({vts[i]!r}, {tmp[i]!r}' + (', lower_bound=-4, upper_bound=8)' if vts[i] == 'INTEGER' else ')'))
+    if how != 'objective first':
+        for i in range(n):
+            R.do(addvar('c', i))
+    targets = []
+    nexpr = r.choice([1, 2, 3])
+    for ei in range(nexpr + 1):
+        if ei == 0 and how == 'objective first':
+            sub = list(range(n))            # the CQM learns 0..n-1 from the objective
+        else:
+            full = r.random() < .6
+            sub = perm_of(r, range(n)) if full else perm_of(r, [i for i in range(n) if r.random() < .6])
+        R.do(f'q{ei} = QM()')
+        for i in sub:
+            R.do(addvar(f'q{ei}', i))
+            R.do(f'q{ei}.set_linear({tmp[i]!r}, {fl(q8(r))})')
+        for _ in range(r.choice([0, 1, 2, 4]) if sub else 0):
+            u, v = r.choice(sub), r.choice(sub)
+            if u == v and vts[u] != 'INTEGER':
+                continue
+            R.do(f'q{ei}.add_quadratic({tmp[u]!r}, {tmp[v]!r}, {fl(q8(r))})')
+        R.do(f'q{ei}.offset = {fl(q8(r))}')
+        if ei == 0:
+            R.do('c.set_objective(q0)')
+            targets.append(('c.objective', 'CQM.objective.energies', sub))
+        else:
+            R.do(f'c.add_constraint_from_model(q{ei}, {r.choice(["<=", ">=", "=="])!r}, {fl(q8(r))}, label={f"k{ei}"!r})')
+            targets.append((f'c.constraints[{f"k{ei}"!r}].lhs', 'CQM.constraint.lhs.energies', sub))
+    if how == 'relabel':
+        R.do(f'c.relabel_variables({ {tmp[i]: i for i in range(n)}!r})')
+    c = R['c']
+    if list(c.variables) != list(range(n)):
+        ctx.tick('range-cqm: variables not 0..n-1 (dropped)')
+        return
+    k = n + r.choice([0, 0, 0, 1])
+    dom = lambda i: domain(vts[i]) if i in vts else [0, 1]  # noqa
+    nrows = r.choice([1, 2, 3])
+    rows = [{i: r.choice(dom(i)) for i in range(k)} for _ in range(nrows)]
+    mat = [[row[i] for i in range(k)] for row in rows]
+    sperm = perm_of(r, range(k))
+    smat = [[row[i] for i in sperm] for row in rows]
+    encs = [('array (unlabelled)', f'np.array({mat!r})', rows), ('float array (unlabelled)', f'np.array({mat!r}, dtype=float)', rows),
+            ('list (unlabelled)', repr(mat), rows), ('array+range', f'(np.array({mat!r}), range({k}))', rows),
+            ('array+sorted list', f'(np.array({mat!r}), {list(range(k))!r})', rows),
+            ('dicts sorted keys', '[' + ', '.join(dict_lit(row, list(range(k))) for row in rows) + ']', rows),
+            ('dict sorted keys', dict_lit(rows[0], list(range(k))), rows[:1]),
+            ('sampleset sorted', f'SampleSet.from_samples((np.array({smat!r}), {sperm!r}), "INTEGER", energy={[0] * nrows!r}, sort_labels=True)', rows),
+            ('sampleset unsorted', f'SampleSet.from_samples((np.array({mat!r}), {list(range(k))!r}), "INTEGER", energy={[0] * nrows!r}, sort_labels=False)', rows),
+            ('array+shuffled labels', f'(np.array({smat!r}), {sperm!r})', rows)]
+    for target, site, sub in targets:
+        t = R.ev(target)
+        order = list(t.variables)
+        permuted = order != sorted(order)
+        ic = ('CQM and samples both labelled 0..k-1; expression order ' + ('permuted' if permuted else 'ascending') +
+              ('' if len(order) == n else ' (subset)') + ('' if k == n else '; sample has an extra column'))
+        if permuted and len(order) == k:
+            ctx.tick('range-cqm: permuted expression spanning every column')
+        for name, expr, erows in encs:
+            ctx.tick(f'{site}:range:{name}')
+            ctx.case((site, tuple(R.lines[4:]), target, expr), nontrivial=bool(order))
+            repro = R.script(f't = {target}\nenc = {expr}\nrows = {erows!r}\ngot = [F(e) for e in t.energies(enc)]\n'
+                             'exp = [poly_value(t, row) for row in rows]\nassert got == exp, (got, exp)\n')
+            try:
+                got = [F(e) for e in t.energies(R.ev(expr))]
+            except Exception as e:  # noqa
+                ctx.fail('property', site, ic, f'{type(e).__name__}: {e} ({name})', repro=repro)
+                continue
+            exp = [poly_value(t, row) for row in erows]
+            if got != exp:
+                ctx.fail('property', site, ic, f'{name}: energies {list(map(str, got))} but the polynomial of the reported coefficients gives '
+                         f'{list(map(str, exp))}; expression order {order}', repro=repro, detail=dict(encoding=expr))
+                continue
+            if len(erows) == 1 and name.startswith('dict'):
+                try:
+                    e1 = F(t.energy(R.ev(expr)))
+                except Exception as e:  # noqa
+                    e1 = repr(e)
+                if e1 != exp[0]:
+                    ctx.fail('property', site.replace('energies', 'energy'), ic, f'energy({expr}) = {e1}, reported polynomial {exp[0]}',
+                             repro=R.script(f't = {target}\nassert F(t.energy({expr})) == poly_value(t, {erows[0]!r})\n'))
+            d_rows, d_labels = real_as_samples(R.ev(expr))
+            l, a, o = qmb_tokens(t, order=order, r=r)
+            vars_tok = ','.join(str(c.variables.index(v)) for v in order) or '-'
+            B.add(f'exprenergies {vars_tok}|{l}|{a}|{o} {labs(c.variables)} {rows_tok(d_rows)} {labs(d_labels)}', enc_energies(got), site, ic,
+                  f'{target}.energies({expr})', detail=dict(model=R.lines[4:]))
+        # a sample (labelled 0..n-2) that omits the last variable must still be rejected
+        if n >= 2 and (n - 1) in order:
+            for bad in (dict_lit(rows[0], list(range(n - 1))), repr(mat[0][:n - 1])):
+                ctx.tick(f'{site}:range:missing')
+                ctx.case((site, tuple(R.lines[4:]), target, 'missing', bad), nontrivial=True)
+                try:
+                    got = t.energies(R.ev(bad))
+                except Exception:  # noqa
+                    continue
+                ctx.fail('property', site, 'sample omits a variable', f'accepted {bad} (no value for {n - 1}) -> {list(got)}',
+                         repro=R.script(f't = {target}\ntry:\n    t.energies({bad})\nexcept Exception:\n    pass\nelse:\n    raise AssertionError("accepted")\n'))
+
+
+# ------------------------------------------------------------------------------------------ integer-width boundaries (round 7)
+
+WIDTHS = (7, 15, 31)
+
+
+def boundary_value(r, w=None):
+    """a value at the edge of a signed integer width: ±2^w, ±(2^w - 1), ±(2^w + 1)"""
+    w = r.choice(WIDTHS) if w is None else w
+    return w, r.choice([1, 1, 1, -1]) * (2 ** w + r.choice([0, 0, 0, -1, 1]))
+
+
+def case_dtype_boundary(ctx, r, B):
+    """samples given WITHOUT a dtype (dict, list of dicts, nested list, (list, labels), one-shot iterables): as_samples picks the
+    smallest signed integer type from the largest magnitude.  For every width w in {7, 15, 31} one entry of the sample array is
+    ±2^w, ±(2^w-1) or ±(2^w+1) and every other entry is smaller in magnitude, so the choice is decided by exactly that entry."""
+    R = Recipe()
+    w, bv = boundary_value(r)
+    n = r.choice([1, 2, 2, 3])
+    labels = r.sample(LABELS, n)
+    big = labels[0]
+    kind = r.choice(['qm', 'cqm-objective', 'cqm-constraint'])
+    R.do('q = QM()')
+    vts = {}
+    for l in labels:
+        vts[l] = 'INTEGER' if l == big or r.random() < .5 else 'BINARY'
+        R.do(f'q.add_variable({vts[l]!r}, {l!r}' + (f', lower_bound=-{2 ** 40}, upper_bound={2 ** 40})' if vts[l] == 'INTEGER' else ')'))
+        R.do(f'q.set_linear({l!r}, {fl(q8(r))})')
+    for _ in range(r.choice([0, 1, 2, 3])):
+        u, v = r.choice(labels), r.choice(labels)
+        if u == v and (vts[u] != 'INTEGER' or (u == big and w > 15)):
+            continue
+        R.do(f'q.add_quadratic({u!r}, {v!r}, {fl(q8(r))})')
+    R.do(f'q.offset = {fl(q8(r))}')
+    small = [-3, 0, 2, 7, 100, -100] if w > 7 else [-3, 0, 2, 7]
+    state = {'first': True}
+
+    def dom(l):
+        if l == big and state['first']:
+            state['first'] = False
+            return [bv]
+        return small if vts.get(l, 'INTEGER') == 'INTEGER' else [0, 1]
+    ctx.tick(f'boundary: 2^{w}' + ('' if abs(bv) == 2 ** w else '-1' if abs(bv) < 2 ** w else '+1') + (' negative' if bv < 0 else ' positive'))
+    deg = f'largest magnitude in the sample array is {"+" if bv > 0 else "-"}2^{w}' + ('' if abs(bv) == 2 ** w else '-1' if abs(bv) < 2 ** w else '+1')
+    if kind == 'qm':
+        m = R['q']
+
+        def mirror(d_rows, d_labels):
+            l, a, o = qmb_tokens(m, r=r)
+            return f'cyenergies {l} {a} {o} {labs(m.variables)} {rows_tok(d_rows)} {labs(d_labels)}'
+        check_energies(ctx, r, B, R, 'q', 'QM.energies', labels, labels, dom, mirror, all_dtypes=True, nrows=r.choice([1, 2, 3]),
+                       exact=exact_in_double, degenerate=deg)
+        return
+    R.do('c = CQM()')
+    if kind == 'cqm-objective':
+        R.do('c.set_objective(q)')
+        target, site = 'c.objective', 'CQM.objective.energies'
+    else:
+        R.do(f'c.add_constraint_from_model(q, {r.choice(["<=", ">=", "=="])!r}, {fl(q8(r))}, label="k")')
+        target, site = 'c.constraints["k"].lhs', 'CQM.constraint.lhs.energies'
+    c = R['c']
+    t = R.ev(target)
+
+    def mirror(d_rows, d_labels, t=t):
+        order = list(t.variables)
+        l, a, o = qmb_tokens(t, order=order, r=r)
+        vars_tok = ','.join(str(c.variables.index(v)) for v in order) or '-'
+        return f'exprenergies {vars_tok}|{l}|{a}|{o} {labs(c.variables)} {rows_tok(d_rows)} {labs(d_labels)}'
+    check_energies(ctx, r, B, R, target, site, list(t.variables), labels, dom, mirror, all_dtypes=True,
+                   nrows=r.choice([1, 2, 3]), exact=exact_in_double, degenerate=deg)
+
+
 # ------------------------------------------------------------------------------------------ held (stale) views
 
 def case_stale_view(ctx, r, B):
@@ -746,7 +944,7 @@ def case_dqm(ctx, r, B, children):
             ctx.case((site, tuple(R.lines[4:]), enc_expr), nontrivial=True)
             if name.startswith('dicts') and as_samples_wrong(enc_expr.replace('iter(', '('), rows, R.ns):
                 ctx.fail('property', 'as_samples', 'list of dicts in differing key orders',
-                         f'{site}: {type(e).__name__} because as_samples misplaces columns; input {enc_expr}', repro=repro)
+                         f'{site}: {type(e).__name__} because as_samples delivers other values than the input assigns; input {enc_expr}', repro=repro)
             else:
                 ctx.fail('property', site, ic, f'{type(e).__name__}: {e} for valid cases', repro=repro)
             continue
@@ -754,7 +952,7 @@ def case_dqm(ctx, r, B, children):
         if got != expect:
             if name.startswith('dicts') and as_samples_wrong(enc_expr.replace('iter(', '('), rows, R.ns):
                 ctx.fail('property', 'as_samples', 'list of dicts in differing key orders',
-                         f'{site}: wrong energies because as_samples misplaces columns; input {enc_expr}', repro=repro)
+                         f'{site}: wrong energies because as_samples delivers other values than the input assigns; input {enc_expr}', repro=repro)
             else:
                 ctx.fail('property', site, ic, f'energies {list(map(str, got))} but the reported cases give {list(map(str, expect))}', repro=repro)
             continue
@@ -887,7 +1085,8 @@ def run(ctx):
                 'permuted columns, SampleSet, plain arrays); a case = one energies call or one as_samples call; non-trivial = the '
                 'model has variables and the call evaluates at least one row; distinct by (construction script, target, encoding)')
     for i in range(n):
-        kind = r.choice(['bqm', 'bqm', 'qm', 'qm', 'cqm', 'cqm', 'cqm', 'dqm', 'poly', 'as', 'as', 'as', 'wide', 'wide', 'stale', 'stale', 'range', 'range'])
+        kind = r.choice(['bqm', 'bqm', 'qm', 'qm', 'cqm', 'cqm', 'cqm', 'dqm', 'poly', 'as', 'as', 'as', 'wide', 'wide', 'stale', 'stale', 'range', 'range',
+                         'cqmrange', 'cqmrange', 'boundary', 'boundary'])
         ctx.tick('model:' + kind)
         if kind == 'bqm':
             case_bqm(ctx, r, B)
@@ -905,6 +1104,10 @@ def run(ctx):
             case_stale_view(ctx, r, B)
         elif kind == 'range':
             case_range_labels(ctx, r, B)
+        elif kind == 'cqmrange':
+            case_cqm_range(ctx, r, B)
+        elif kind == 'boundary':
+            case_dtype_boundary(ctx, r, B)
         else:
             check_as_samples(ctx, r, B)
         if len([f for f in ctx.failures if f['kind'] == 'property']) >= 12:
